@@ -18,7 +18,9 @@ Violations(line) ==
   ELSE LET i == FirstDiff(Exp(line), line.obs.calls) IN IF i = 0 THEN {} ELSE DiffFields(Exp(line)[i], line.obs.calls[i])
 Why(line) == IF Len(line.obs.calls) # Len(Exp(line)) THEN "length"
              ELSE LET i == FirstDiff(Exp(line), line.obs.calls) IN
-                  IF i = 0 THEN "-" ELSE "metadata-" \o line.in.calls[i].meta
+                  IF i = 0 THEN "-"
+                  ELSE IF "annOK" \in DiffFields(Exp(line)[i], line.obs.calls[i]) THEN "signer-annotations-" \o line.in.art.signerAnn
+                  ELSE "metadata-" \o line.in.calls[i].meta
 
 Init == l = 1
 Next == /\ l <= Len(Trace)
